@@ -3,6 +3,12 @@
 import json
 PROPS = [json.loads(l) for l in open('/verif/properties.jsonl')]
 CLAIMED = {
+ "C04": dict(
+    category="proof",
+    text="Coq theorems about the min / max / keepdims / refusal logic of get_crop_item_from_points for any number of points: C04_box (the emitted item selects exactly the positions from the smallest to the largest nearest-pixel index, both attained by points: containment and minimality), C04_keepdims (keepdims never changes which elements are selected), C04_on_array (a point off the array - below 0 or beyond the end - never excludes an on-array point), C04_untouched / C04_item (all-None axes are left whole; a one-element result is refused), C04_rounding (floor(x+1/2): an edge belongs to the upper pixel). The values-form pipeline (touched axes from the correlation matrix, fill of None components, inversion, rounding) is an executable Gallina model compared exactly with _get_crop_by_values_item on block-diagonal integer probe WCS incl. positions exactly on pixel edges and outside the array; crop / crop_by_values / extra_coords / combined_wcs / TAN and rotated families, unit spellings and the malformed stream are decided by a direct oracle.",
+    design_ref="DESIGN.md §5.4",
+    note="Trusted: Coq kernel + VM; Model/M_Crop.v transcription; astropy's SlicedLowLevelWCS fill-in of dropped world values, world-to-pixel inversion and floor(x+1/2) are dependency models validated by the same run. The association of high-level objects to axes (array_indices_for_world_objects) is covered by the oracle only (crop == crop_by_values == expected box).",
+    technique="Coq proof over hand-written Gallina model + vm_compute correspondence check + direct oracle"),
  "C06": dict(
     category="proof",
     text="Coq theorems over ANY two member WCS: C06_outputs (the combined wcs gives the primary's world values followed by the extra coordinates', each what the separate description gives for the same array element), C06_roundtrip (world -> pixel returns the position, on and between grid points, when both members round-trip and every extra-coord pixel dimension maps to a cube axis), C06_matrix (a matrix entry is set iff a member slot mapped to that pixel axis is set), C06_types (array_axis_physical_types lists per array axis, in array order, exactly the types whose matrix entry is set, in world order). Tied to /repo by the exact wrapper-expression evaluator of C14 on cubes over an invertible integer probe WCS with 0-4 linear lookup tables, plain / sliced / rebinned, at grid and k/4 positions, plus a direct oracle (separate descriptions, round trip, finite-difference matrix, physical types).",
